@@ -977,11 +977,11 @@ void MD_PSGMelody::v_set_ins()
 
 void MD_PSGMelody::v_set_vol()
 {
-	uint8_t vol = get_var(Event::VOL_FINE);
+	int vol = get_var(Event::VOL_FINE);
 	if(coarse_volume_flag())
-		vol = 15-vol;
+		vol = (vol > 15) ? 0 : 15-vol;
 	else
-		vol = get_psg_volume(vol);
+		vol = get_psg_volume((vol < 0) ? 0 : vol);
 	vol += env_delay & 0x0f;
 	if(vol > 15)
 		vol = 15;
@@ -1016,11 +1016,11 @@ void MD_PSGNoise::v_set_ins()
 
 void MD_PSGNoise::v_set_vol()
 {
-	uint8_t vol = get_var(Event::VOL_FINE);
+	int vol = get_var(Event::VOL_FINE);
 	if(coarse_volume_flag())
-		vol = 15-vol;
+		vol = (vol > 15) ? 0 : 15-vol;
 	else
-		vol = get_psg_volume(vol);
+		vol = get_psg_volume((vol < 0) ? 0 : vol);
 	vol += env_delay & 0x0f;
 	if(vol > 15)
 		vol = 15;
